@@ -210,7 +210,8 @@ Proof.
     destruct (negb (state s =? ST_CONNECTING)); [exact H|].
     cbv zeta. apply bal_set_state.
     destruct (c_passive (cf s)); [exact H|]. bal_norm. apply bal_send_contact_header. exact H.
-  - destruct (closed s); [exact H|]. cbv zeta. apply bal_emit, bal_pq_trigger. bal_norm. exact H.
+  - destruct (closed s); [exact H|]. destruct (in_term s); [apply bal_emit; exact H|].
+    cbv zeta. apply bal_emit, bal_pq_trigger. bal_norm. exact H.
   - destruct (closed s); [exact H|].
     destruct (negb (in_sess s)); [apply bal_do_close; exact H|].
     apply bal_escape, bal_send_sess_term. exact H.
